@@ -81,7 +81,8 @@ class Batch:
             raise MachineryError("duplicate case ids in batch")
         self.mode = mode
         n = len(cases)
-        self.ncrates = ncrates or max(1, min(NPROC, (n + per_crate - 1) // per_crate))
+        # enough crates to use all cores on small batches, never more than ~60 modules per crate (rustc memory)
+        self.ncrates = ncrates or max(1, (n + 59) // 60, min(NPROC, (n + per_crate - 1) // per_crate))
         self.dir = os.path.join(WORK, "batch", self.name)
         self.assign = {}
         ids = sorted(self.cases)
